@@ -7,6 +7,8 @@ forcing file, also with a wildcard forcing file name), optional sections omitted
 
 from __future__ import annotations
 
+import datetime
+
 from pathlib import Path
 from typing import Any
 
@@ -25,7 +27,7 @@ LEVEL_TEXT = ("Scenarios restricted to the v1 vocabulary (discrete/continuous re
               "be identical. Runs with the grid section omitted / optional sections omitted must equal the explicit ones.")
 LEVEL_NOTE = "The TOML text is produced by the harness's own writer and read by ladim through tomli; with diffusion > 0 the tracker's rng is re-seeded identically by the harness in every run so that outputs are comparable exactly."
 RULE = ("case = scenario spec; renderings yaml2, toml2, yaml1 (+ grid-omitted, sections-omitted variants). Non-trivial: several release times or continuous release and moving water; distinct by spec.")
-MANDATORY = ["extra_forcing_variable", "version_key_as_string_with_decimal_point", "v1_grid_file_omitted_pairs", "yaml_anchor_and_alias", "steps_not_multiple_of_output_period", "wildcard_names_of_unequal_length", "v1_file_names_in_files_section", "v1_discrete_with_release_frequency", "configure_dicts_compared", "plugin_gridforce", "version_key_omitted", "yaml2_vs_toml2", "yaml2_vs_yaml1", "grid_omitted_pairs", "wildcard_forcing", "optional_sections_omitted_pairs", "continuous", "discrete", "subgrid", "diffusion_seeded",
+MANDATORY = ["wildcard_with_question_mark", "reference_time_as_native_datetime_with_time_of_day", "extra_forcing_variable", "version_key_as_string_with_decimal_point", "v1_grid_file_omitted_pairs", "yaml_anchor_and_alias", "steps_not_multiple_of_output_period", "wildcard_names_of_unequal_length", "v1_file_names_in_files_section", "v1_discrete_with_release_frequency", "configure_dicts_compared", "plugin_gridforce", "version_key_omitted", "yaml2_vs_toml2", "yaml2_vs_yaml1", "grid_omitted_pairs", "wildcard_forcing", "optional_sections_omitted_pairs", "continuous", "discrete", "subgrid", "diffusion_seeded",
              "particle_variable_column", "values_compared"]
 ASSUMPTIONS = ["only what the v1 vocabulary can express"]
 MIN_CASES_PER_PROCESS = 4  # several runs share one interpreter: state leaking between runs (module caches, shared defaults) becomes observable
@@ -47,6 +49,8 @@ def _tv(v: Any) -> str:
         return str(int(v))
     if isinstance(v, (float, np.floating)):
         return repr(float(v))
+    if isinstance(v, datetime.datetime):
+        return v.isoformat()  # a native TOML date-time
     if isinstance(v, str):
         return '"' + v.replace("\\", "\\\\").replace('"', '\\"') + '"'
     if isinstance(v, (list, tuple)):
@@ -81,7 +85,7 @@ def spec_for(case: dict[str, Any]) -> dict[str, Any]:
     nfiles = int(rng.choice([1, 2, 3]))
     return dict(dt=dt, ns=ns, cont=cont, freq=int(rng.integers(1, 3)), subgrid=[2, 17, 1, 13] if case["idx"] % 3 == 0 else None,
                 diffusion=float(rng.choice([0.0, 0.0, 25.0])), advection=str(rng.choice(["EF", "RK2", "RK4"])),
-                nfiles=nfiles, wildcard=bool(nfiles > 1 or rng.random() < 0.5), reference="2019-12-31T00:00:00" if rng.random() < 0.5 else None,
+                nfiles=nfiles, wildcard=bool(nfiles > 1 or rng.random() < 0.5), reference=("2019-12-31T12:30:00" if case["idx"] % 4 == 1 else "2019-12-31T00:00:00") if (rng.random() < 0.5 or case["idx"] % 4 == 1) else None,
                 cohort=bool(rng.random() < 0.6), ibm=bool(rng.random() < 0.5 or case["idx"] % 4 == 3), xf=bool(case["idx"] % 4 == 3), outper_spelling=int(rng.integers(2)), seed=int(rng.integers(10**6)),
                 outper_mult=2 if (case["idx"] // 2) % 2 else 1, version_key=bool(rng.random() < 0.5 or case["idx"] % 4 == 2), vsp=case["idx"] % 4, plugin_gridforce=bool(case["idx"] % 4 == 1), odd_names=bool(nfiles > 1 and case["idx"] % 3 != 2))
 
@@ -132,6 +136,8 @@ def renderings(sp: dict[str, Any], wd: Path, w, rls: Path, names: list[str]) -> 
     dt, ns = sp["dt"], sp["ns"]
     start, stop = C.T0, str(tadd(C.T0, ns * dt))
     forcing_file = w["pattern"] if sp["wildcard"] else str(w["files"][0])
+    if sp["wildcard"] and not sp["odd_names"] and sp["vsp"] % 2:
+        forcing_file = str(Path(w["pattern"]).parent / "f_00?.nc")  # the other wildcard character
     opdt = dt * sp.get("outper_mult", 1)
     outper_v = [opdt, "s"] if sp["outper_spelling"] == 0 else opdt
     ivars = ["pid", "X", "Y", "Z"] + (["age"] if sp["ibm"] else []) + (["temp"] if sp.get("xf") else [])
@@ -186,7 +192,8 @@ def renderings(sp: dict[str, Any], wd: Path, w, rls: Path, names: list[str]) -> 
         output_variables=dict(outper=outper_v, format="NETCDF4", instance=ivars, particle=pvars),
     )
     if sp["reference"]:
-        v1["time_control"]["reference_time"] = sp["reference"]
+        # the legacy file carries the reference time as a native YAML timestamp (no quotes), with its time of day
+        v1["time_control"]["reference_time"] = datetime.datetime.fromisoformat(sp["reference"]) if sp["reference"].endswith("12:30:00") else sp["reference"]
     if sp["subgrid"]:
         v1["gridforce"]["subgrid"] = sp["subgrid"]
     if sp["cohort"]:
@@ -280,6 +287,7 @@ def run_case(case: dict[str, Any], wd: Path) -> dict[str, Any]:
     sit["continuous" if sp["cont"] else "discrete"] = 1
     sit["subgrid"] = int(sp["subgrid"] is not None)
     sit["wildcard_forcing"] = int(sp["wildcard"])
+    sit["wildcard_with_question_mark"] = int(sp["wildcard"] and not sp["odd_names"] and sp["vsp"] % 2 == 1)
     sit["yaml_anchor_and_alias"] = int(sp["seed"] % 2)
     sit["steps_not_multiple_of_output_period"] = int(sp["ns"] % sp.get("outper_mult", 1) != 0)
     sit["wildcard_names_of_unequal_length"] = int(sp["wildcard"] and sp["odd_names"])
@@ -323,6 +331,8 @@ def run_case(case: dict[str, Any], wd: Path) -> dict[str, Any]:
     variants: list[tuple[str, dict[str, Any], str]] = [("yaml2", R["yaml2"], "yaml"), ("yaml1", R["yaml1"], "yaml")]
     t2 = copy.deepcopy(R["yaml2"])
     t2["output"]["filename"] = str(wd / "out_toml2.nc")
+    if sp["reference"] and sp["reference"].endswith("12:30:00"):
+        t2["time"]["reference"] = datetime.datetime.fromisoformat(sp["reference"])  # native TOML date-time with a time of day
     variants.append(("toml2", t2, "toml"))
     g = copy.deepcopy(R["yaml2"])  # grid section omitted: forcing module + first forcing file
     g["output"]["filename"] = str(wd / "out_nogrid.nc")
@@ -372,6 +382,7 @@ def run_case(case: dict[str, Any], wd: Path) -> dict[str, Any]:
     sit["v1_file_names_in_files_section"] = int(sp["seed"] % 3 == 0)
     sit["v1_discrete_with_release_frequency"] = int(not sp["cont"] and sp["seed"] % 2 == 1)
     sit["version_key_omitted"] = int(not sp["version_key"])
+    sit["reference_time_as_native_datetime_with_time_of_day"] = int(bool(sp["reference"]) and sp["reference"].endswith("12:30:00"))
     sit["extra_forcing_variable"] = int(bool(sp.get("xf")))
     sit["version_key_as_string_with_decimal_point"] = int(sp["version_key"] and sp["vsp"] == 2)
     base = outs.get("yaml2")
